@@ -8,3 +8,7 @@ pub(crate) mod slave_h;
 pub(crate) mod master_h;
 #[path = "port_bmca.rs"]
 pub(crate) mod bmca_h;
+#[path = "port_announce.rs"]
+pub(crate) mod announce_h;
+#[path = "port_dispatch.rs"]
+pub(crate) mod dispatch_h;
